@@ -33,8 +33,9 @@ func init() {
 			"(growth) every size family (expression length, nesting depth, array / object / string size, fan-out of nested projections, inputs of sort_by / group_by / zip / merge / contains / ==) is run at n = 64 .. 4096 doubling; " +
 			"oracle: loop iterations inside the library <= 64 * (|expression| + |document| + |result|) * max(1, log2) + 512 and bytes allocated <= 4096 * size + 1 MiB for the magnitude part, iterations(2n) / iterations(n) <= 8 for the growth part; " +
 			"a tick-budget abort, a worker killed by the memory limit or a call still running at the 60 s watchdog is a violation; non-trivial = a call that returns a non-empty value; distinct_nontrivial counts distinct results",
-		Phases: []core.Phase{{Name: "magnitude", Build: "instr", Fn: c09RunMagnitude, CrashIsViolation: true}, {Name: "growth", Build: "instr", Fn: c09RunGrowth, CrashIsViolation: true}},
-		Judge:  c09Judge,
+		Phases: []core.Phase{{Name: "magnitude", Build: "instr", Fn: c09RunMagnitude, CrashIsViolation: true}, {Name: "growth", Build: "instr", Fn: c09RunGrowth, CrashIsViolation: true},
+			{Name: "many-expressions", Build: "instr", Procs: 1, Fn: c09RunMany, CrashIsViolation: true}},
+		Judge: c09Judge,
 		Assumptions: []string{
 			"work inside the standard library and the decimal128 package is not counted in loop iterations; it is seen through bytes allocated, the memory limit and the watchdog",
 			"pad widths are explored up to 2^12 only: a larger width legitimately produces a result of that size",
@@ -515,6 +516,31 @@ func c09Families() []c09Family {
 			}
 			return "@ == @", d
 		}},
+		{"projection-two-faults", func(n int) (string, any) {
+			// a projected function that fails on two elements far apart: the call must still return (with an error)
+			a := c09Array(n, num)
+			a[n/8] = "x"
+			a[n-n/8-1] = "y"
+			return "@[*].abs(@)", a
+		}},
+		{"map-two-faults", func(n int) (string, any) {
+			a := c09Array(n, num)
+			a[n/8] = "x"
+			a[n-n/8-1] = "y"
+			return "map(&abs(@), @)", a
+		}},
+		{"filter-two-faults", func(n int) (string, any) {
+			a := c09Array(n, num)
+			a[n/8] = "x"
+			a[n-n/8-1] = "y"
+			return "@[?abs(@) > `1`]", a
+		}},
+		{"sort_by-two-faults", func(n int) (string, any) {
+			a := c09Array(n, num)
+			a[n/8] = "x"
+			a[n-n/8-1] = "y"
+			return "sort_by(@, &abs(@))", a
+		}},
 		{"deep-object-equal", func(n int) (string, any) {
 			mk := func() any {
 				var d any = map[string]any{"a": num(1)}
@@ -614,7 +640,67 @@ func c09RunGrowth(r *core.Run) {
 	}
 }
 
+// c09RunMany: one process evaluates 20000 (thorough: 200000) different expressions through Search and through Compile; the
+// cost of a fixed probe, measured after every thousand, must not grow, and every call must return (a library that
+// remembers expressions has to bound what it remembers without stopping the world).
+func c09RunMany(r *core.Run) {
+	if !verifrt.Instrumented {
+		r.InternalError("C09 needs the instrumented build")
+		return
+	}
+	n := 20000
+	if r.Thorough() {
+		n = 200000
+	}
+	r.Bound("distinct_expressions_in_one_process", n)
+	d := map[string]any{"a": []any{json.Number("1")}}
+	probe := "a[0]"
+	first := c09Measure(probe, d, false)
+	for i := 0; i < n; i++ {
+		var e string
+		switch i % 4 {
+		case 0:
+			e = fmt.Sprintf("f%d.g%d", i, i%7)
+		case 1:
+			e = fmt.Sprintf("length('s%d')", i)
+		case 2:
+			e = fmt.Sprintf("a[%d]", i)
+		default:
+			e = fmt.Sprintf("nosuch%d(", i) // does not parse
+		}
+		r.Begin(map[string]any{"expr": fmt.Sprintf("the %d-th distinct expression of this process: %s", i, e), "doc": `{"a":[1]}`})
+		c := c09Measure(e, d, false)
+		r.Eval(c.Obs)
+		core.Compile(e)
+		r.Add("transitions", 2)
+		r.Add("states", 1)
+		if c.Obs.Kind == "budget" || c.Obs.Kind == "panic" {
+			r.Violate(&core.Violation{Sig: "C09/" + c.Obs.Kind + "/many-expressions", Desc: fmt.Sprintf("the %d-th distinct expression of the process", i),
+				Point: map[string]any{"expr": "many", "doc": "", "family": "many-expressions", "kind": "many"}, Expected: "returns", Actual: c.Obs.Short()})
+			return
+		}
+		if i%1000 == 999 {
+			p := c09Measure(probe, d, false)
+			if p.Ticks > 4*first.Ticks+64 {
+				r.Violate(&core.Violation{Sig: "C09/cost-grows-with-history/many-expressions", Desc: fmt.Sprintf("Search(%q) after %d other expressions", probe, i+1),
+					Point: map[string]any{"expr": "many", "doc": "", "family": "many-expressions", "kind": "many"}, Expected: fmt.Sprintf("about the %d iterations of the first call", first.Ticks), Actual: fmt.Sprintf("%d iterations", p.Ticks)})
+				return
+			}
+		}
+	}
+}
+
 func c09Judge(r *core.Run, phase string, pt map[string]any) *core.Violation {
+	if pstr(pt, "kind") == "many" {
+		sub := *r
+		sub.Clusters = map[string]*core.Cluster{}
+		sub.C = map[string]int64{}
+		c09RunMany(&sub)
+		for _, c := range sub.Clusters {
+			return c.Min
+		}
+		return nil
+	}
 	e := pstr(pt, "expr")
 	if strings.HasPrefix(e, "family:") {
 		name := strings.TrimPrefix(strings.Fields(e)[0], "family:")
